@@ -71,6 +71,16 @@ def build_seed(name):
         ok = pd.DataFrame({"a": [1, 2]}, index=mi)
         bad = pd.DataFrame({"a": [1, 2]}, index=pd.MultiIndex.from_arrays([["p", "q"], [1, -2]], names=["k1", "k2"]))
         return s, {"ok": ok, "bad": bad, "coercible": ok.astype("float64"), "uncoercible": pd.DataFrame({"a": ["q", "r"]}, index=mi)}
+    if name == "multiindex_coerce_level":
+        # one level coerces, the other does not (the MultiIndex's own coerce flag is off): "coerce" read from the MultiIndex is a
+        # summary over its levels, not the flag itself
+        s = pa.DataFrameSchema({"a": pa.Column(int)}, index=pa.MultiIndex([pa.Index(str, name="k1"), pa.Index(int, pa.Check.ge(0), name="k2", coerce=True)]))
+        mi = pd.MultiIndex.from_arrays([["p", "q"], [1, 2]], names=["k1", "k2"])
+        ok = pd.DataFrame({"a": [1, 2]}, index=mi)
+        bad = pd.DataFrame({"a": [1, 2]}, index=pd.MultiIndex.from_arrays([["p", "q"], [1, -2]], names=["k1", "k2"]))
+        # "coercible" only if the NON-coercing level were coerced too: a fresh schema rejects it
+        return s, {"ok": ok, "bad": bad, "coercible": pd.DataFrame({"a": [1, 2]}, index=pd.MultiIndex.from_arrays([[7, 8], [1.0, 2.0]], names=["k1", "k2"])),
+                   "uncoercible": pd.DataFrame({"a": ["q", "r"]}, index=mi)}
     if name == "frame_dtype":
         s = pa.DataFrameSchema({"a": pa.Column(checks=pa.Check.ge(0)), "b": pa.Column()}, dtype=int, coerce=True)
         ok = pd.DataFrame({"a": [1, 2], "b": [3, 4]})
@@ -145,7 +155,7 @@ def build_seed(name):
     raise AssertionError(name)
 
 
-SEEDS = ["plain", "regex", "multiindex", "frame_dtype", "coerce_all", "all_checks", "custom_checks", "datetime_tz_agnostic",
+SEEDS = ["plain", "regex", "multiindex", "multiindex_coerce_level", "frame_dtype", "coerce_all", "all_checks", "custom_checks", "datetime_tz_agnostic",
          "model_born", "series", "polars"]
 
 
@@ -321,7 +331,7 @@ def _ops_for(seed):
 
     is_series = seed == "series"
     is_polars = seed == "polars"
-    first = {"plain": "a", "regex": "a.*", "multiindex": "a", "frame_dtype": "a", "coerce_all": "a", "all_checks": "i",
+    first = {"plain": "a", "regex": "a.*", "multiindex": "a", "multiindex_coerce_level": "a", "frame_dtype": "a", "coerce_all": "a", "all_checks": "i",
              "custom_checks": "a", "datetime_tz_agnostic": "t", "model_born": "a", "polars": "a"}.get(seed)
     ops = {
         "validate_ok": lambda s, f: _val(s, f["ok"]),
